@@ -323,10 +323,15 @@ def match_finding(prop, shape):
     return None
 
 
+CURRENT_RUN = None
+
+
 class Run:
     """Book-keeping for one check run: violations, known findings, notes, evidence."""
 
     def __init__(self, prop, tier, level):
+        global CURRENT_RUN
+        CURRENT_RUN = self
         self.prop, self.tier, self.level = prop, tier, level
         self.t0 = time.time()
         self.violations = []      # (shape, replay_path)
